@@ -12,79 +12,130 @@ EXTENDS Integers, Sequences, FiniteSets, TLC, Json, SequencesExt
 Out(tag) == [t |-> "out", tag |-> tag]
 Ctl(k, name, n) == [t |-> "ctl", k |-> k, name |-> name, n |-> n]
 If(var, val, body) == [t |-> "if", var |-> var, val |-> val, body |-> body]
-Loop(var, items, body) == [t |-> "foreach", var |-> var, items |-> items, body |-> body]
+\* kind: "foreach" | "while" | "for" -- also the name murex gives the block
+Loop(kind, var, items, body) == [t |-> "loop", kind |-> kind, var |-> var, items |-> items, body |-> body]
+\* cons: a foreach fed by an earlier stage of the same pipeline (the producer: another foreach printing its
+\* items one per second); a block ended from inside it takes the producer with it
+Staged(var, items, body) == [t |-> "staged", kind |-> "foreach", var |-> var, items |-> items, body |-> body]
 
 Normal == [k |-> "normal", name |-> "", n |-> 0]
 RenderTag(tag, env) == [x \in DOMAIN tag |->
                           IF tag[x] = "$i" THEN ToString(env.i)
-                          ELSE IF tag[x] = "$j" THEN ToString(env.j) ELSE tag[x]]
+                          ELSE IF tag[x] = "$j" THEN ToString(env.j)
+                          ELSE IF tag[x] = "$n" THEN ToString(env.n) ELSE tag[x]]
+
+\* result of executing something: printed tags, completion record, and for every staged loop that was run the
+\* range [lo, hi] of the number of items its producer may have started before it was stopped
+R(out, c, tk) == [out |-> out, c |-> c, tk |-> tk]
 
 RECURSIVE ExecSeq(_, _), ExecStmt(_, _), ExecLoop(_, _, _)
 \* a sequence of statements runs until one completes abnormally
 ExecSeq(ss, env) ==
-    IF ss = <<>> THEN [out |-> <<>>, c |-> Normal]
+    IF ss = <<>> THEN R(<<>>, Normal, <<>>)
     ELSE LET r == ExecStmt(Head(ss), env) IN
          IF r.c.k # "normal" THEN r
-         ELSE LET rest == ExecSeq(Tail(ss), env) IN [out |-> r.out \o rest.out, c |-> rest.c]
+         ELSE LET rest == ExecSeq(Tail(ss), env) IN R(r.out \o rest.out, rest.c, r.tk \o rest.tk)
 
 ExecStmt(s, env) ==
-    CASE s.t = "out" -> [out |-> <<RenderTag(s.tag, env)>>, c |-> Normal]
-      [] s.t = "ctl" -> [out |-> <<>>, c |-> [k |-> s.k, name |-> s.name, n |-> s.n]]
+    CASE s.t = "out" -> R(<<RenderTag(s.tag, env)>>, Normal, <<>>)
+      [] s.t = "ctl" -> R(<<>>, [k |-> s.k, name |-> s.name, n |-> s.n], <<>>)
       [] s.t = "if"  -> IF env[s.var] = s.val
                           THEN LET r == ExecSeq(s.body, env) IN
                                \* `break if` ends the if block, nothing more
-                               IF r.c.k = "break" /\ r.c.name = "if" THEN [out |-> r.out, c |-> Normal] ELSE r
-                          ELSE [out |-> <<>>, c |-> Normal]
-      [] s.t = "foreach" -> ExecLoop(s, s.items, env)
+                               IF r.c.k = "break" /\ r.c.name = "if" THEN R(r.out, Normal, r.tk) ELSE r
+                          ELSE R(<<>>, Normal, <<>>)
+      [] s.t = "loop" -> LET r == ExecLoop(s, s.items, env) IN R(r.out, r.c, r.tk)
+      [] s.t = "staged" ->
+           LET r == ExecLoop(s, s.items, env)
+               n == Len(s.items)
+               \* the consumer went through all items: so did the producer.  The consumer ended its own loop early:
+               \* the producer is in no block that was ended, it may run on.  A block around the pipeline was ended
+               \* while the consumer was at item `used`: the producer had started that one and must not run to its end
+               tick == IF r.c.k = "normal" THEN [lo |-> r.used, hi |-> n]
+                       ELSE [lo |-> r.used, hi |-> IF r.used < n THEN n - 1 ELSE n]
+           IN R(r.out, r.c, r.tk \o <<tick>>)
 
+\* -> [out, c, tk, used]: used = iterations started
 ExecLoop(s, items, env) ==
-    IF items = <<>> THEN [out |-> <<>>, c |-> Normal]
+    IF items = <<>> THEN [out |-> <<>>, c |-> Normal, tk |-> <<>>, used |-> 0]
     ELSE LET r == ExecSeq(s.body, [env EXCEPT ![s.var] = Head(items)]) IN
-         IF r.c.k = "break" /\ r.c.name = "foreach" THEN [out |-> r.out, c |-> Normal]       \* loop ends
-         ELSE IF r.c.k = "normal" \/ (r.c.k = "continue" /\ r.c.name = "foreach")
-           THEN LET rest == ExecLoop(s, Tail(items), env) IN [out |-> r.out \o rest.out, c |-> rest.c]
-           ELSE r                                             \* aimed at something further out
+         IF r.c.k = "break" /\ r.c.name = s.kind THEN [out |-> r.out, c |-> Normal, tk |-> r.tk, used |-> 1]       \* loop ends
+         ELSE IF r.c.k = "normal" \/ (r.c.k = "continue" /\ r.c.name = s.kind)
+           THEN LET rest == ExecLoop(s, Tail(items), env) IN
+                [out |-> r.out \o rest.out, c |-> rest.c, tk |-> r.tk \o rest.tk, used |-> 1 + rest.used]
+           ELSE [out |-> r.out, c |-> r.c, tk |-> r.tk, used |-> 1]      \* aimed at something further out
 
 \* a function call: return n / break <function> end it; its exit number is n, resp. 0
 Call(fname, body) ==
-    LET r == ExecSeq(body, [i |-> 0, j |-> 0]) IN
-    [out |-> r.out,
+    LET r == ExecSeq(body, [i |-> 0, j |-> 0, n |-> 0]) IN
+    [out |-> r.out, tk |-> r.tk,
      exit |-> IF r.c.k = "return" THEN r.c.n ELSE 0,
      wellformed |-> r.c.k \in {"normal", "return"} \/ (r.c.k = "break" /\ r.c.name = fname)]
 
-(* ------------------------------ program family -------------------------- *)
+(* ------------------------------ program family 1: nested loops ---------- *)
 FName == "fn"
-CtlKinds == {"none", "break-foreach", "continue-foreach", "return", "break-if", "break-fn"}
-MkCtl(k) == CASE k = "break-foreach"    -> <<Ctl("break", "foreach", 0)>>
-              [] k = "continue-foreach" -> <<Ctl("continue", "foreach", 0)>>
-              [] k = "return"           -> <<Ctl("return", "", 3)>>
+LoopKinds == {"foreach", "while", "for"}
+\* control statements: break / continue aimed at a loop by its name, return, break if, break <function>
+CtlKinds == {"none", "return", "break-if", "break-fn"} \cup {"break-" \o k : k \in LoopKinds} \cup {"continue-" \o k : k \in LoopKinds}
+MkCtl(k) == CASE k = "return"           -> <<Ctl("return", "", 3)>>
               [] k = "break-if"         -> <<Ctl("break", "if", 0)>>
               [] k = "break-fn"         -> <<Ctl("break", FName, 0)>>
               [] k = "none"             -> <<>>
-\* the control statement sits inside `if { $var == when }` followed by one more output,
-\* or (direct) at the top of the loop body guarded the same way but without its own trailing output
+              [] \E x \in LoopKinds : k = "break-" \o x -> <<Ctl("break", CHOOSE x \in LoopKinds : k = "break-" \o x, 0)>>
+              [] \E x \in LoopKinds : k = "continue-" \o x -> <<Ctl("continue", CHOOSE x \in LoopKinds : k = "continue-" \o x, 0)>>
+Targets(k) == IF \E x \in LoopKinds : k \in {"break-" \o x, "continue-" \o x}
+                THEN {CHOOSE x \in LoopKinds : k \in {"break-" \o x, "continue-" \o x}} ELSE {}
+\* the control statement sits inside `if { $var == when }` between two outputs
 Guarded(k, var, when, mark) ==
     IF k = "none" THEN <<>>
     ELSE <<If(var, when, <<Out(<<"g", mark>>)>> \o MkCtl(k) \o <<Out(<<"h", mark>>)>>)>>
 
 Body(p) ==
-    LET inner == IF p.inner
-                   THEN <<Loop("j", <<1, 2>>, <<Out(<<"b", "$i", "$j">>)>> \o Guarded(p.c2, "j", p.w2, "2") \o <<Out(<<"c", "$i", "$j">>)>>)>>
+    LET inner == IF p.inner # "none"
+                   THEN <<Loop(p.inner, "j", <<1, 2>>, <<Out(<<"b", "$i", "$j">>)>> \o Guarded(p.c2, "j", p.w2, "2") \o <<Out(<<"c", "$i", "$j">>)>>)>>
                    ELSE <<>>
     IN <<Out(<<"s">>),
-         Loop("i", <<1, 2, 3>>, <<Out(<<"a", "$i">>)>> \o Guarded(p.c1, "i", p.w1, "1") \o inner \o <<Out(<<"d", "$i">>)>>),
+         Loop(p.k1, "i", <<1, 2, 3>>, <<Out(<<"a", "$i">>)>> \o Guarded(p.c1, "i", p.w1, "1") \o inner \o <<Out(<<"d", "$i">>)>>),
          Out(<<"e">>)>>
 
-Params == [c1 : CtlKinds, w1 : {1, 2}, inner : BOOLEAN, c2 : CtlKinds, w2 : {1, 2}]
-Valid(p) == (~p.inner => (p.c2 = "none" /\ p.w2 = 1)) /\ (p.c1 = "none" => p.w1 = 1) /\ (p.c2 = "none" => p.w2 = 1)
+Params == [k1 : LoopKinds, c1 : CtlKinds, w1 : {1, 2}, inner : LoopKinds \cup {"none"}, c2 : CtlKinds, w2 : {1, 2}]
+\* a loop can only be named from inside it
+Valid(p) == /\ (p.inner = "none" => (p.c2 = "none" /\ p.w2 = 1)) /\ (p.c1 = "none" => p.w1 = 1) /\ (p.c2 = "none" => p.w2 = 1)
+            /\ Targets(p.c1) \subseteq {p.k1}
+            /\ Targets(p.c2) \subseteq {p.k1, p.inner}
 Programs == {p \in Params : Valid(p)}
 
 Case(p) == LET r == Call(FName, Body(p)) IN
-           [params |-> p, body |-> Body(p), out |-> r.out, exit |-> r.exit, wellformed |-> r.wellformed]
+           [family |-> "nest", params |-> p, body |-> Body(p), out |-> r.out, exit |-> r.exit, tk |-> r.tk, wellformed |-> r.wellformed]
+
+(* ------------------------------ program family 2: a block ended from a pipeline stage ---- *)
+\* function body: [while over 2 rounds {] producer -> foreach i over NStage items { a; if i = w { g; CTL; h }; d } ; e [}] ; z
+NStage == 6
+StageCtl == {"none", "return", "break-fn", "break-while", "break-foreach", "break-if"}
+Params2 == [wrap : BOOLEAN, c : StageCtl, w : {2, 3}]
+Valid2(p) == (p.c = "break-while" => p.wrap) /\ (p.c = "none" => p.w = 2)
+Programs2 == {p \in Params2 : Valid2(p)}
+Body2(p) ==
+    LET pipe == <<Staged("i", [x \in 1..NStage |-> x], <<Out(<<"a", "$i">>)>> \o Guarded(p.c, "i", p.w, "1") \o <<Out(<<"d", "$i">>)>>),
+                  Out(<<"e">>)>>
+    IN <<Out(<<"s">>)>> \o (IF p.wrap THEN <<Loop("while", "n", <<1, 2>>, <<Out(<<"w", "$n">>)>> \o pipe)>> ELSE pipe) \o <<Out(<<"z">>)>>
+Case2(p) == LET r == Call(FName, Body2(p)) IN
+            [family |-> "stage", params |-> p, body |-> Body2(p), out |-> r.out, exit |-> r.exit, tk |-> r.tk, wellformed |-> r.wellformed]
 
 \* sanity: the meaning never invents output and a program without control statements prints everything
 ASSUME \A p \in Programs : Call(FName, Body(p)).wellformed
-ASSUME LET r == Call(FName, Body([c1 |-> "none", w1 |-> 1, inner |-> FALSE, c2 |-> "none", w2 |-> 1])) IN
-         Len(r.out) = 8 /\ r.exit = 0
-ASSUME ndJsonSerialize("cases.ndjson", SetToSeq({Case(p) : p \in Programs}))
+ASSUME \A p \in Programs2 : Call(FName, Body2(p)).wellformed
+ASSUME \A k \in LoopKinds :
+         LET r == Call(FName, Body([k1 |-> k, c1 |-> "none", w1 |-> 1, inner |-> "none", c2 |-> "none", w2 |-> 1])) IN
+         Len(r.out) = 8 /\ r.exit = 0 /\ r.tk = <<>>
+\* a loop named from the inner loop: when the kinds differ the outer loop is the one that ends
+ASSUME LET r == Call(FName, Body([k1 |-> "while", c1 |-> "none", w1 |-> 1, inner |-> "foreach", c2 |-> "break-while", w2 |-> 1])) IN
+         r.out = <<<<"s">>, <<"a", "1">>, <<"b", "1", "1">>, <<"g", "2">>, <<"e">>>>
+ASSUME LET r == Call(FName, Body([k1 |-> "foreach", c1 |-> "none", w1 |-> 1, inner |-> "foreach", c2 |-> "break-foreach", w2 |-> 1])) IN
+         Len(r.out) = 2 + 3 * 4
+\* a block around the pipeline ended at item 2 of 6: the producer had started 2 items and stops before the last
+ASSUME Call(FName, Body2([wrap |-> FALSE, c |-> "return", w |-> 2])).tk = <<[lo |-> 2, hi |-> NStage - 1]>>
+ASSUME Call(FName, Body2([wrap |-> TRUE, c |-> "break-while", w |-> 3])).tk = <<[lo |-> 3, hi |-> NStage - 1]>>
+ASSUME Call(FName, Body2([wrap |-> TRUE, c |-> "none", w |-> 2])).tk = <<[lo |-> NStage, hi |-> NStage], [lo |-> NStage, hi |-> NStage]>>
+ASSUME ndJsonSerialize("cases.ndjson", SetToSeq({Case(p) : p \in Programs} \cup {Case2(p) : p \in Programs2}))
 =============================================================================
